@@ -388,7 +388,7 @@ class LP_Solver:
                 lowBound = 0, 
                 upBound = self.model.num_students * self.model.num_projects *
                   student_multiplier + self.model.num_students *
-                  self.model.num_lecturers * lecturer_multiplier,
+                  self.model.num_students * lecturer_multiplier,
                 cat = "Integer")
         sum_costs_exp = LpAffineExpression()
         for pair in list(chain.from_iterable(self.model.pairs)):
@@ -407,7 +407,7 @@ class LP_Solver:
         lecturer_multiplier = 0 if len(cost_multipliers) < 2 else cost_multipliers[1]
         self.info_string += '- optimisation: minimising sum of square of ranks\n'
         up_bound_st = (self.model.num_students * len(self.model.rank_lists))**2 * student_multiplier
-        up_bound_lec = (self.model.num_lecturers * self.model.num_students)**2 * lecturer_multiplier
+        up_bound_lec = (self.model.num_students * self.model.num_students)**2 * lecturer_multiplier
         obj = LpVariable(
                 "obj_minsqcost", 
                 lowBound = 0, 
